@@ -154,6 +154,25 @@ def c08(sess):
     sess.rel_features = {"orders_distinct": len(set(repr([o for o in f[2] if o[0] == "event"]) for f in finals)),
                          "succeeded": finals[0][1]["status"] == "succeeded",
                          "records": len(finals[0][1]["records"])}
+    # thorough tier: every completion order of small scenarios (exhaustive when it fits the cap)
+    if sess.fam.get("tier") == "thorough" and len(finals[0][1]["executed"]) <= 6:
+        from harness import provider, sim
+        oracle = _case_oracle(sess)
+        allf, exhaustive = sim.all_orders(
+            lambda: provider.Session(sess.definition, sess.inputs, with_model=False), oracle, cap=150)
+        sess.rel_features["all_orders"] = len(allf)
+        sess.rel_features["all_orders_exhaustive"] = exhaustive
+        base = allf[0][1]
+        for script, f, ops in allf[1:]:
+            if f["status"] != base["status"]:
+                vs.append({"what": "final status depends on completion order (exhaustive enumeration): %s vs %s"
+                                   % (base["status"], f["status"]), "ops": ops, "ops_other": allf[0][2], "step": len(ops) - 1})
+                break
+            if f["status"] == "succeeded" and any(f[k] != base[k] for k in ("records", "published", "output")):
+                k = [k for k in ("records", "published", "output") if f[k] != base[k]][0]
+                vs.append({"what": "%s depends on completion order (exhaustive enumeration): %r vs %r" % (k, base[k], f[k]),
+                           "ops": ops, "ops_other": allf[0][2], "step": len(ops) - 1})
+                break
     return vs
 
 
